@@ -33,6 +33,12 @@ theorem pIter_nonrange (n : Nat) {t : Tok} (r : List Tok) (h : starter t = true)
     pIter (n + 1) (t :: r) = (wrapB (isAnd := false) (pOrList n (t :: r))).bind fun e r' => .ok (.each e) r' := by
   cases t <;> simp [pIter, starter] at h ⊢
 
+theorem pArgs1_comma (n : Nat) {ts : List Tok} {a : PyExpr} {t : Tok} (r : List Tok) (h : starter t = true)
+    (hp : wrapB (isAnd := false) (pOrList n ts) = .ok a (.comma :: t :: r)) :
+    pArgs1 (n + 1) ts = (pArgs1 n (t :: r)).bind fun as r'' => .ok (a :: as) r'' := by
+  simp only [pArgs1, hp, PR.bind_ok]
+  cases t <;> simp [starter] at h ⊢
+
 theorem pAtom_int (n k : Nat) (r : List Tok) (h : r.head? ≠ some .dot) :
     pAtom (n + 1) (.int k :: r) = .ok (.int k) r := by
   match r, h with
@@ -291,8 +297,11 @@ mutual
       simp only [printArgsTail, List.length_cons, List.length_append, List.cons_append, List.append_assoc] at hn ⊢
       obtain ⟨n', rfl⟩ : ∃ n', n = n' + 1 := ⟨n - 1, by omega⟩
       have ih := readsArgs1 ws h.2 w h.1.2 gw rest n' (by omega)
-      simp only [pArgs1, ge.p1 (.comma :: (print w ++ (printArgsTail ws ++ rest))) n' rfl (by omega), PR.bind_ok, ih,
-        stripList]
+      have h1 := ge.p1 (.comma :: (print w ++ (printArgsTail ws ++ rest))) n' rfl (by omega)
+      obtain ⟨t, ts, hp, st⟩ := head_print w h.1.2
+      rw [hp, List.cons_append] at h1 ih
+      rw [hp, List.cons_append, pArgs1_comma _ _ st.st h1, ih]
+      simp [stripList]
   theorem readsParts : ∀ (ps : List PyPart), parenOKParts ps = true → ∀ (rest : List Tok) (n : Nat),
       20 * (printParts ps).length ≤ n → pParts n (printParts ps ++ rest) = .ok (stripParts ps) rest
     | [], _, rest, n, hn => by
